@@ -20,6 +20,7 @@ namespace plan
     std::map<int, Scope> rule_scope; // per predicate
     size_t order = 0;
     std::vector<int> real_unit;
+    std::string tp_fixed;         // a real variable fixed at top level (`xf == c;`) that disjuncts may mix into time-point relations
     std::vector<std::string> tps; // time-point variables (`tp t0;`): also listed in m.reals, never in a Scope
     // planting: a hidden assignment that (most) generated constraints are made consistent with, so that
     // problems are satisfiable by a small margin (or unsatisfiable by a small margin when unplanted)
